@@ -291,6 +291,7 @@ fn collect_error_lines(e: &Error, result: &mut Vec<String>) {
         Error::DoubleDeclaredRegisterOutWire { ref name, old_span, new_span } =>
             (vec!(name.clone()), vec!(old_span, new_span)),
         Error::DoubleAssignedFixedOutWire { ref name, span, .. } => (vec!(name.clone()), vec!(span)),
+        Error::ConstantAssigned { ref name, assign_span, const_span } => (vec!(name.clone()), vec!(assign_span, const_span)),
         Error::RedeclaredBuiltinWire { ref name, span, .. } => (vec!(name.clone()), vec!(span)),
         Error::PartialFixedInput { ref found_inputs, ref missing_inputs, .. } => {
             let mut names = found_inputs.clone();
